@@ -53,7 +53,7 @@ RULE = (
     "E3 cases = (feature set with <= K features, route in sdl|code|code+) x option sets (full grid 3 indents x descriptions x "
     "introspection x custom directives {False,True,['foo']} for the smallest sets, a 6-entry menu and a 3-entry menu for larger ones, see bounds); evaluation = one "
     "print/re-build/re-print of one (schema, options); non-trivial = distinct printed text on which both the printer and the "
-    "rebuilt extractor ran. E2 cases = (prelude, first action); each explores every continuation up to depth D; state = "
+    "rebuilt extractor ran. E2 cases = (prelude, first action[, second action]); each explores every continuation up to depth D (thorough: one level deeper for histories that stay on one schema); state = "
     "distinct history, transition = one to_string call, execution = one forked child."
 )
 ASSUMPTIONS = [
@@ -64,8 +64,8 @@ ASSUMPTIONS = [
     "history preludes: graphql_blocking of `{ a __typename }` and of the introspection query; transform_schema with an identity VisibilitySchemaTransform",
 ]
 BOUNDS = {
-    "quick": {"features_full_grid": 1, "features_menu6": 2, "features_menu3": 0, "history_depth": 3, "history_actions": 12, "preludes": 3},
-    "thorough": {"features_full_grid": 2, "features_menu6": 2, "features_menu3": 3, "history_depth": 4, "history_actions": 12, "preludes": 3},
+    "quick": {"features_full_grid": 1, "features_menu6": 2, "features_menu3": 0, "history_depth": 3, "history_depth_one_schema": 3, "history_actions": 12, "preludes": 3},
+    "thorough": {"features_full_grid": 1, "features_menu6": 2, "features_menu3": 3, "history_depth": 3, "history_depth_one_schema": 4, "history_actions": 12, "preludes": 3},
 }
 TIME_CAP = {"quick": 150, "thorough": 1500}
 
@@ -508,7 +508,14 @@ def cases(tier):
     # E2 first: few cases, each heavy -- spreads over the workers
     for prelude in PRELUDES:
         for a in ACTIONS:
-            yield {"kind": "hist", "prelude": prelude, "first": a, "depth": b["history_depth"]}
+            yield {"kind": "hist", "prelude": prelude, "first": a, "depth": b["history_depth"], "same_schema_from": b["history_depth"]}
+    if b["history_depth_one_schema"] > b["history_depth"]:
+        # one level deeper, but only histories that stay on one schema
+        for prelude in PRELUDES:
+            for a in ACTIONS:
+                for a2 in ACTIONS:
+                    if a2[0] == a[0]:
+                        yield {"kind": "hist", "prelude": prelude, "first": a, "second": a2, "depth": b["history_depth_one_schema"], "same_schema_from": 0}
     top = max(b["features_full_grid"], b["features_menu6"], b["features_menu3"])
     for fs in G.feature_sets(top):
         if len(fs) <= b["features_full_grid"]:
@@ -516,16 +523,19 @@ def cases(tier):
         elif len(fs) <= b["features_menu6"]:
             grid, routes = "menu6", ("sdl", "code+")
         else:
-            grid, routes = "menu3", ("sdl", "code+")
+            grid, routes = "menu3", ("sdl-or-code+",)
         for route in routes:
             yield {"kind": "rt", "features": fs, "route": route, "grid": grid}
 
 
-def _extend(seq, depth):
-    yield seq
+def _extend(seq, depth, same_schema=False, min_len=1):
+    if len(seq) >= min_len:
+        yield seq
     if len(seq) < depth:
         for a in ACTIONS:
-            for x in _extend(seq + [a], depth):
+            if same_schema and a[0] != seq[0][0]:
+                continue
+            for x in _extend(seq + [a], depth, same_schema, min_len):
                 yield x
 
 
@@ -534,7 +544,12 @@ def check_case(case, st):
     if case["kind"] == "hist":
         st.n("tag:history-case")
         found = {}
-        for seq in _extend([case["first"]], case["depth"]):
+        if "second" in case:
+            # only the histories longer than the all-schema bound (the shorter ones are covered there)
+            it = _extend([case["first"], case["second"]], case["depth"], same_schema=True, min_len=case["depth"])
+        else:
+            it = _extend([case["first"]], case["depth"])
+        for seq in it:
             if st.out_of_time():
                 break
             for _, detail, k in hist_eval(case["prelude"], seq, st):
@@ -546,6 +561,9 @@ def check_case(case, st):
         st.mx("history_depth", case["depth"])
         return out
     st.n("tag:roundtrip-case")
+    if case["route"] == "sdl-or-code+":
+        # largest sets: one route only -- the SDL one, or the code one when the builder rejects the SDL (C11 findings)
+        case = dict(case, route="sdl" if make_schema(case["features"], "sdl")[0] is not None else "code+")
     st.n("route:" + case["route"])
     opts = {"full": FULL_GRID, "menu6": MENU, "menu3": MENU_SMALL}[case["grid"]]
     if st.counters.get("cases", 0) % 211 == 1:
